@@ -1129,9 +1129,19 @@ def closure_reuse(ctx, world):
                         root = _mut_target(x)
                         if root is not None and root not in local:
                             bad = (x, f"mutates the captured variable `{root}` in place")
-                    elif isinstance(x, ast.Assign):
-                        for t in x.targets:
-                            if isinstance(t, ast.Subscript):
+                    elif isinstance(x, (ast.Assign, ast.For, ast.Delete, ast.AnnAssign)):
+                        tg0 = list(x.targets) if isinstance(x, (ast.Assign, ast.Delete)) else [x.target]  # (a copy: the AST is shared)
+                        flat = []
+                        while tg0:
+                            t0 = tg0.pop()
+                            if isinstance(t0, (ast.Tuple, ast.List)):
+                                tg0.extend(t0.elts)  # shape[i], shape[j] = shape[j], shape[i]
+                            elif isinstance(t0, ast.Starred):
+                                tg0.append(t0.value)
+                            else:
+                                flat.append(t0)
+                        for t in flat:
+                            if isinstance(t, (ast.Subscript, ast.Attribute)):
                                 root = t
                                 while isinstance(root, (ast.Subscript, ast.Attribute)):
                                     root = root.value
@@ -1607,7 +1617,14 @@ def raise_discipline(ctx, world):
                     else:
                         ctx.fail("A6.raise", inst, f"{q}:handler-swallows", loc_of(m, h), f"an except handler on the lookup path does not end in `raise` on every path (ends: {sorted(ends)})", "differentiating through a primitive / argument / value type without a rule: the failure is swallowed and a wrong (zero or truncated) derivative is returned")
     ctx.floor("A6.raise instances", n, 8)
-    # Node.__init__ slots (A2.slot)
+    node_slots(ctx, world)
+
+
+def node_slots(ctx, world):
+    """A2.slot - Node.__init__ hands the rule maker exactly what the wrapper gave it: the (still boxed, for lower
+    traces) answer, arguments and keywords, unmodified and in the documented order"""
+    from ..tutil import expand, unseq
+
     ctx.describe("A2.slot", "every Node constructor takes (value, fun, args, kwargs, parent_argnums, parents) and hands (parent_argnums, value, args, kwargs) [+ parent tangents] to the rule maker stored for the primitive")
     for cls, tab, extra in (("VJPNode", "primitive_vjps", 0), ("JVPNode", "primitive_jvps", 1)):
         m, fn = world.repo.find_def(CORE, f"{cls}.__init__")
